@@ -33,10 +33,17 @@ class Group:
         s.name = name; s.includes = includes; s.prelude = prelude; s.profile = profile; s.flags = list(flags); s.cut = list(cut)
         GROUPS[name] = s
 
+class Stub:
+    """assumed-contract stand-in for an external / library-algorithm function cut out of the closure.
+    record: [(ghost name, parameter index, C++ record name or None)] -- ghost copies of the arguments (pointers to structs are copied by value)
+    ret: name of a non-deterministic ghost returned (or None for void);  count: ghost call counter;  body: extra C statements"""
+    def __init__(s, fn_re, record=(), ret=None, count=None, body='', only_first=False):
+        s.fn_re = fn_re; s.record = list(record); s.ret = ret; s.count = count; s.body = body; s.only_first = only_first
+
 class Check:
     def __init__(s, id, props, group, params, wrapper, fn=None, cxx=None, ghosts=(), requires=(), lemmas=(), ensures=(),
                  assigns=None, mode='exact', setup='', tier='quick', fn_re=None, replace=(), loops=None, decl=None,
-                 post='', misuse=False, covers=(), cbmc_flags=(), timeout=600, note='', unwind=None, ret_cxx=None, native=True, objbits=None, config='debug'):
+                 post='', misuse=False, covers=(), stubs=(), solvers=('cadical', 'minisat'), cbmc_flags=(), timeout=600, note='', unwind=None, ret_cxx=None, native=True, objbits=None, config='debug'):
         assert id not in CHECKS, id
         s.id = id; s.props = list(props); s.group = group; s.fn = fn; s.fn_re = fn_re; s.params = list(params)
         s.wrapper = wrapper            # (ret_cxx_type, 'cxx param list', 'cxx body')
@@ -47,7 +54,7 @@ class Check:
         s.assigns = assigns            # None = no assigns clause, else list of targets
         s.mode = mode; s.setup = setup; s.tier = tier; s.replace = list(replace); s.loops = loops or {}
         s.decl = decl or {}; s.post = post; s.misuse = misuse; s.cbmc_flags = list(cbmc_flags); s.timeout = timeout
-        s.covers = list(covers); s.note = note; s.unwind = unwind; s.native = native; s.objbits = objbits; s.config = config
+        s.covers = list(covers); s.stubs = list(stubs); s.solvers = list(solvers); s.note = note; s.unwind = unwind; s.native = native; s.objbits = objbits; s.config = config
         CHECKS[id] = s
 
 # ------------------------------------------------------------------ helpers
@@ -67,6 +74,34 @@ def run(cmd, timeout=None, mem_kb=None, cwd=None, stdin=None):
         out, err = p.communicate()
         return 124, out, err, time.time()-t0
     return p.returncode, out, err, time.time()-t0
+
+def run_portfolio(cmds, timeout=None, mem_kb=None):
+    """run several equivalent commands concurrently (solver portfolio); first one to finish with rc in ok_rcs wins"""
+    import tempfile
+    def pre():
+        import resource
+        if mem_kb: resource.setrlimit(resource.RLIMIT_AS, (mem_kb*1024, mem_kb*1024))
+        os.setsid()
+    t0 = time.time(); procs = []
+    for cmd in cmds:
+        fo = tempfile.TemporaryFile(mode='w+'); fe = tempfile.TemporaryFile(mode='w+')
+        procs.append((subprocess.Popen(cmd, stdout=fo, stderr=fe, preexec_fn=pre, text=True), fo, fe, cmd))
+    winner = None
+    while winner is None:
+        for pr in procs:
+            rc = pr[0].poll()
+            if rc is not None and rc in (0, 10): winner = pr; break
+        if winner is None and all(pr[0].poll() is not None for pr in procs): winner = procs[0]; break
+        if winner is None and timeout and time.time() - t0 > timeout: break
+        if winner is None: time.sleep(0.1)
+    for pr in procs:
+        if pr[0].poll() is None:
+            try: os.killpg(pr[0].pid, 9)
+            except Exception: pass
+            pr[0].wait()
+    if winner is None: return 124, '', '', time.time()-t0, None
+    winner[1].seek(0); winner[2].seek(0)
+    return winner[0].returncode, winner[1].read(), winner[2].read(), time.time()-t0, winner[3]
 
 _demangle_cache = {}
 def demangle(names):
@@ -147,12 +182,13 @@ class Binder:
         if len(check.params) != len(func.params):
             raise Broken('check %s: %d parameter names for %d IR parameters (%s)' % (check.id, len(check.params), len(func.params),
                          [repr(t) for t, _ in func.params]))
+        s.extra_types = {}; s.extra_cxx = {}
         s.ptype = {n: t for n, (t, _) in zip(check.params, func.params)}
         s.irname = {n: 'v_' + ll2c.cname(irn) for n, (_, irn) in zip(check.params, func.params)}
     def resolve_members(s, e):
         """var->a.b.c  (real C++ member names)  ==>  var->f0.f1 (fields of the translated struct)"""
         def one(var, path, arrow):
-            rec = s.c.cxx.get(var)
+            rec = s.c.cxx.get(var) or s.extra_cxx.get(var)
             if rec is None: return None
             if var == 'RET': t = s.f.ret
             elif var in s.ptype:
@@ -175,10 +211,9 @@ class Binder:
             cp = one(var, path, arrow)
             if cp is None: return m.group(0)
             return var + ('->' + cp[1:] if arrow == '->' else cp)
-        names = '|'.join(re.escape(v) for v in s.c.cxx)
+        names = '|'.join(re.escape(v) for v in list(s.c.cxx) + list(s.extra_cxx))
         if not names: return e
         return re.sub(r'\b(%s)(->|\.)([A-Za-z_]\w*(?:#\d+)?(?:\.[A-Za-z_]\w*(?:#\d+)?)*)' % names, repl, e)
-    extra_types = {}
     def for_contract(s, e):
         e = s.resolve_members(e)
         e = re.sub(r'\bRET\b', '__CPROVER_return_value', e)
@@ -262,8 +297,55 @@ class Runner:
         inst = s.inst(check.group, check.config); m = inst.module
         fn = inst.find(check); f = m.funcs[fn]
         arith = 'exact' if mode == 'exact' else ('uf' if mode == 'uf' else 'narrow')
-        gen = ll2c.Gen(m, arith, cut=GROUPS[check.group].cut)
+        # assumed-contract stubs: the named functions are cut out of the closure and replaced by recording stand-ins
+        stubfns = []
+        for st in check.stubs:
+            r = re.compile(st.fn_re); hits = sorted(n for n, d in inst.dem.items() if r.fullmatch(d))
+            if not hits: hits = sorted(n for n in m.decls if r.fullmatch(n[1:]))      # external C function (declaration only)
+            if not hits: raise Broken('check %s: stub pattern %s matches no function of the IR (inlined away / renamed?)' % (check.id, st.fn_re))
+            if len(hits) > 1 and not st.only_first: raise Broken('check %s: stub pattern %s matches %d functions: %s' % (check.id, st.fn_re, len(hits), [inst.dem[h] for h in hits][:4]))
+            stubfns.append((st, hits[0]))
+        gen = ll2c.Gen(m, arith, cut=GROUPS[check.group].cut + ['^' + re.escape(n) + '$' for _, n in stubfns])
         b = Binder(inst, check, gen, f)
+        stub_ghosts = []       # (ctype, name, init) ; filled by stub_code
+        stub_types = []
+        def sparams(n):
+            if n in m.funcs: return [t for t, _ in m.funcs[n].params], m.funcs[n].ret, m.funcs[n].byval
+            ret, ps, va = m.decls[n]; return list(ps), ret, set()
+        for st, n in stubfns:
+            sps, sret, sbyval = sparams(n)
+            for rec_ in st.record:
+                gname, idx, rec = rec_[:3]
+                t = sps[idx]
+                if isinstance(t, Ptr) and isinstance(t.to, (Named, Lit)): b.extra_types[gname] = t.to; stub_types.append(t.to)
+                if rec: b.extra_cxx[gname] = rec
+            stub_types += [t.to for t in sps if isinstance(t, Ptr) and isinstance(t.to, (Named, Lit))]
+        def stub_code(g_):
+            out = []
+            for st, n in stubfns:
+                sps, sret, sbyval = sparams(n); ps = []; body = []
+                for i, t in enumerate(sps):
+                    byv = i in sbyval
+                    if native and byv and isinstance(t, Ptr): ps.append(g_.ct(t.to, 'a%d' % i))
+                    else: ps.append(g_.ct(t, 'a%d' % i))
+                if st.count:
+                    out.append('int %s;' % st.count); stub_ghosts.append(('int', st.count, '0')); body.append('%s++;' % st.count)
+                for rec_ in st.record:
+                    gname, idx, rec = rec_[:3]; how = rec_[3] if len(rec_) > 3 else None
+                    t = sps[idx]; byv = idx in sbyval
+                    if how == 'deref':
+                        out.append('%s;' % g_.ct(t.to, gname)); body.append('%s = *a%d;' % (gname, idx))
+                    elif how == 'ptr' or not (isinstance(t, Ptr) and isinstance(t.to, (Named, Lit))):
+                        out.append('%s;' % g_.ct(t, gname)); body.append('%s = a%d;' % (gname, idx))
+                    else:
+                        g_.need(t.to); out.append('%s;' % g_.ct(t.to, gname))
+                        body.append('%s = %sa%d;' % (gname, '' if (native and byv) else '*', idx))
+                if st.ret:
+                    out.append('%s;' % g_.ct(sret, st.ret)); stub_ghosts.append((g_.ct(sret), st.ret, None))
+                if st.body: body.append(st.body)
+                body.append('return %s;' % st.ret if st.ret else 'return;')
+                out.append('%s(%s){ %s }' % (g_.ct(sret, ll2c.cname(n)), ', '.join(ps) or 'void', ' '.join(body)))
+            return '\n'.join(out)
         fcn = ll2c.cname(fn)
         # contract text
         lines = []; linemap = {}
@@ -275,14 +357,17 @@ class Runner:
             if kind == 'lemma' and mode != 'uf': continue
             ctext.append('__CPROVER_requires(%s)' % b.for_contract(r))
         if check.assigns is not None:
-            ctext.append('__CPROVER_assigns(%s)' % ', '.join(b.for_contract(a) for a in check.assigns))
+            stub_targets = []
+            for st, n in stubfns:
+                stub_targets += ([st.count] if st.count else []) + [r_[0] for r_ in st.record]
+            ctext.append('__CPROVER_assigns(%s)' % ', '.join([b.for_contract(a) for a in check.assigns] + stub_targets))
         ens_lines = []
         for label, e in check.ensures:
             ctext.append('/*ENS:%s*/ __CPROVER_ensures(%s)' % (label, b.for_contract(e)))
         if vacuity: ctext.append('/*ENS:VACUITY*/ __CPROVER_ensures(0)')
         contracts = {fcn: '\n'.join(ctext)}
         loopc = {(fcn, k): b.for_contract(v) if False else v for k, v in check.loops.items()}
-        ptypes = [t.to for t, _ in f.params if isinstance(t, Ptr) and not isinstance(t.to, (Void, Fn_t))] + [f.ret]
+        ptypes = [t.to for t, _ in f.params if isinstance(t, Ptr) and not isinstance(t.to, (Void, Fn_t))] + [f.ret] + stub_types
         gen.contracts = {} if native else contracts
         gen.loopc = {} if native else loopc
         if native:
@@ -292,13 +377,13 @@ class Runner:
                    ll2c.PRELUDE.replace('extern int EXC;', 'int EXC;')]
             fw = sorted({gen.sname(Named(t)) for t in m.types} | {v[0] for v in gen.litnames.values()})
             src += [nm + ';' for nm in fw] + gen.struct_order + [gen.proto(fn), ARITH_H, lemma_header()]
+            for ct_, n in check.ghosts: src.append('%s %s;' % (ct_, n))
+            src.append(stub_code(gen))
         else:
             defs = '#define ARITH_%s %s\n' % ({'exact': 'EXACT', 'uf': 'UF', 'narrow': 'NARROW'}[arith], mode.split(':')[1] if ':' in mode else '1')
-            code = gen.emit([fn], need_types=ptypes, after_prelude=defs + ARITH_H + lemma_header() + '\nint EXC;\n' + ''.join('%s %s;\n' % g_ for g_ in check.ghosts))
+            code = gen.emit([fn], need_types=ptypes, after_prelude=defs + ARITH_H + lemma_header() + '\nint EXC;\n' + ''.join('%s %s;\n' % g_ for g_ in check.ghosts), after_protos=stub_code)
             src = [code]
         # ghosts
-        if native:
-            for ct_, n in check.ghosts: src.append('%s %s;' % (ct_, n))
         # harness
         h = []
         nd = set()
@@ -316,6 +401,8 @@ class Runner:
             else:
                 decls.append('%s;' % gen.ct(t, name)); inits.append((name, gen.ct(t)))
         for ct_, n in check.ghosts: inits.append((n, ct_))
+        for ct_, n, init in stub_ghosts:
+            if init is None: inits.append((n, ct_))
         s_setup = b.for_harness(check.setup)
         retdecl = ''
         call = '%s(%s)' % (fcn, ', '.join(check.params))
@@ -326,6 +413,8 @@ class Runner:
             h += ['  ' + d for d in decls]
             for var, ctype in inits: h.append('  %s = %s;' % (var, nondet(ctype)))
             h.append('  EXC = 0;')
+            for ct_, n, init in stub_ghosts:
+                if init is not None: h.append('  %s = %s;' % (n, init))
             if s_setup: h.append('  ' + s_setup)
             if retdecl: h.append('  ' + retdecl)
             h.append('  %s;' % call)
@@ -419,15 +508,16 @@ class Runner:
         rc, out, err, _ = run(cmd, timeout=600, mem_kb=CBMC_MEM_KB)
         if rc != 0:
             r.status = 'broken'; r.reason = 'goto-instrument: ' + (err or out)[-1500:]; return r
-        cb = ['cbmc', gbi, '--sat-solver', 'cadical', '--json-ui', '--trace', '--no-pointer-overflow-check' if False else '--verbosity', '4']
-        cb = ['cbmc', gbi, '--sat-solver', 'cadical', '--json-ui', '--trace', '--verbosity', '4']
+        cb = ['cbmc', gbi, '--json-ui', '--trace', '--verbosity', '4']
         if mode != 'exact': cb += ['--no-signed-overflow-check']
         if check.unwind: cb += ['--unwind', str(check.unwind), '--unwinding-assertions']
         if check.objbits: cb += ['--object-bits', str(check.objbits)]
         cb += check.cbmc_flags
-        r.cmd = ' '.join(['goto-cc --function harness check.c -o a.gb', '&&'] + cmd[:-2] + ['a.gb b.gb', '&&'] + ['cbmc b.gb'] + cb[2:])
-        rc, out, err, dt = run(cb, timeout=check.timeout, mem_kb=CBMC_MEM_KB)
+        r.cmd = ' '.join(['goto-cc --function harness check.c -o a.gb', '&&'] + cmd[:-2] + ['a.gb b.gb', '&&'] + ['cbmc b.gb [--sat-solver cadical | default minisat: first to finish]'] + cb[2:])
+        solver_flags = {'cadical': ['--sat-solver', 'cadical'], 'minisat': []}
+        rc, out, err, dt, won = run_portfolio([cb + solver_flags[sv] for sv in check.solvers], timeout=check.timeout, mem_kb=CBMC_MEM_KB)
         r.time = time.time() - t0
+        r.solver = 'minisat' if won is not None and '--sat-solver' not in won else 'cadical'
         if rc == 124:
             r.status = 'timeout'; r.reason = 'cbmc exceeded %ds' % check.timeout; return r
         try:
@@ -441,6 +531,9 @@ class Runner:
                 r.reason += item.get('messageText', '') + ' '
         if results is None:
             r.status = 'broken'; r.reason = 'cbmc produced no result: ' + r.reason + out[-600:]; return r
+        bad_status = sorted({pr.get('status', '?') for pr in results} - {'SUCCESS', 'FAILURE'})
+        if bad_status:
+            r.status = 'broken'; r.reason = 'cbmc left properties undecided (status %s): %s' % (bad_status, r.reason[:300]); return r
         for pr in results:
             name = pr.get('property', ''); desc = pr.get('description', ''); st = pr.get('status', '')
             loc = pr.get('sourceLocation', {}) or {}
@@ -519,6 +612,7 @@ def json_value_to_c(v):
         return '{' + ', '.join((json_value_to_c(e.get('value')) or '0') for e in v.get('elements', [])) + '}'
     if nm == 'integer':
         d = re.sub(r'[uUlL]+$', '', str(v.get('data', '0')))
+        if d.upper() in ('TRUE', 'FALSE'): return '1' if d.upper() == 'TRUE' else '0'
         if not re.fullmatch(r'-?\d+', d): return '0'
         if d == '-9223372036854775808': return '(-9223372036854775807LL-1)'
         if len(d.lstrip('-')) > 18: return d + 'ULL'
